@@ -1132,7 +1132,7 @@ def run(ctx):
             complete_all &= check_scenario(ctx, impl, scen, seg_lists, 3 if quick else 6, "generated-many-iterations")
         if not quick:
             scen = many_iterations_scenario(rng, 0, iters=101)
-            complete_all &= check_scenario(ctx, impl, scen, [gen_segs(rng, scen, "each-once")], 1, "generated-many-iterations")
+            complete_all &= check_scenario(ctx, impl, scen, [gen_segs(rng, scen, "each-once")], 2, "generated-many-iterations")
         recent = []
         for i in range(nscen):
             if time.time() - t0 > budget:
